@@ -113,9 +113,21 @@ class World:
         self.nodes = [Node(f"N{i}", self) for i in range(n)]
 
 
-def initial_events(world, program):
+def horizon(end_ns):
+    """end_ns: None | int (end_time in ns) | ('sd', start_ns, dur_ns): start_time + duration form.
+    Returns (constructor kwargs, effective end in ns, shift applied to the program's start times)."""
+    if end_ns is None:
+        return {}, None, 0
+    if isinstance(end_ns, (tuple, list)):
+        _tag, start_ns, dur_ns = end_ns
+        return {"start_time": Instant(start_ns), "duration": dur_ns / 1e9}, start_ns + dur_ns, start_ns
+    return {"end_time": Instant(end_ns)}, end_ns, 0
+
+
+def initial_events(world, program, shift=0):
     evs = []
     for chain, (node, t_ns, plan) in enumerate(program):
+        t_ns += shift
         evs.append((node, Event(time=Instant(t_ns), event_type=f"c{chain}.0", target=world.nodes[node],
                                 context={"metadata": {"plan": plan, "chain": chain, "k": 0}})))
     return evs
@@ -284,9 +296,7 @@ def run_parallel(program, n, topo, window_s, end_ns, ctl=None, real_threads=Fals
     import warnings
     world = World(n)
     parts = [SimulationPartition(name=f"P{i}", entities=[world.nodes[i]]) for i in range(n)]
-    kw = {}
-    if end_ns is not None:
-        kw["end_time"] = Instant(end_ns)
+    kw, _eff, shift = horizon(end_ns)
     links = topo_links(topo, n)
     with warnings.catch_warnings():
         warnings.simplefilter("ignore")
@@ -294,7 +304,7 @@ def run_parallel(program, n, topo, window_s, end_ns, ctl=None, real_threads=Fals
             psim = ParallelSimulation(parts, links=links, window_size=window_s, **kw)
         else:
             psim = ParallelSimulation(parts, **kw)
-    for node, ev in initial_events(world, program):
+    for node, ev in initial_events(world, program, shift):
         psim.schedule(ev, partition=f"P{node}")
     err = None
     with TimeTravelWatch() as watch:
@@ -312,12 +322,10 @@ def run_parallel(program, n, topo, window_s, end_ns, ctl=None, real_threads=Fals
 
 def run_sequential(program, n, end_ns, only_node=None):
     world = World(n)
-    kw = {}
-    if end_ns is not None:
-        kw["end_time"] = Instant(end_ns)
+    kw, _eff, shift = horizon(end_ns)
     ents = world.nodes if only_node is None else [world.nodes[only_node]]
     sim = Simulation(entities=ents, **kw)
-    for node, ev in initial_events(world, program):
+    for node, ev in initial_events(world, program, shift):
         if only_node is None or node == only_node:
             sim.schedule(ev)
     sim.run()
@@ -326,6 +334,7 @@ def run_sequential(program, n, end_ns, only_node=None):
 
 def compare(par, seq, warns, err, end_ns, exact=False):
     out = []
+    end_ns = horizon(end_ns)[1]
     if err:
         out.append((f"exception/{err.split(':')[0]}", f"parallel run raised {err}"))
         return out
@@ -507,7 +516,7 @@ def run_independent(run, seed, depth):
     w = 2 * TICK
     d = run.driver("independent", {"partitions": n, "links": "none", "plan_depth": depth})
     firsts = [s for s in starters(n, "none", w, depth, True)]
-    ends = [None, 2 * w, 6 * w]
+    ends = [None, 2 * w, 6 * w, ("sd", 5 * w, 2 * w)]
     nch = 32
     chunks = [firsts[i::nch] for i in range(nch)]
     jobs = [(ch, firsts, n, ends) for ch in rotate(chunks, seed) if ch]
@@ -645,6 +654,11 @@ def main(tier, seed, only=None):
             # without end_time the sequential engine auto-terminates on daemon-only heaps, the coordinator does not)
             run_programs(run, "p2-cancel-daemon", 2, "bi", W[:2], 2, 1, lambda w: [12 * w, 5 * w + 1], ["fwd", "rev"],
                          "cancel-daemon", seed)
+        if want("p2-start-duration"):
+            # the horizon given as start_time + duration (start on and off the window grid)
+            run_programs(run, "p2-start-duration", 2, "bi", W[:2], 2, 1,
+                         lambda w: [("sd", 4 * w, 3 * w), ("sd", w + TICK // 2, 12 * w), ("sd", 20 * w, 2 * w)],
+                         ["fwd", "rev"], True, seed)
         if want("independent"):
             run_independent(run, seed, 1)
         if want("schedules"):
@@ -669,6 +683,11 @@ def main(tier, seed, only=None):
                          "cancel-daemon", seed)
             run_programs(run, "p3-cancel-daemon", 3, "chain", W[:2], 3, 1, lambda w: [12 * w], ["fwd", "rev"],
                          "cancel-daemon", seed)
+        if want("p2-start-duration"):
+            run_programs(run, "p2-start-duration", 2, "bi", W, 3, 1,
+                         lambda w: [("sd", 4 * w, 3 * w), ("sd", w + TICK // 2, 12 * w), ("sd", 20 * w, 2 * w),
+                                    ("sd", 3 * w - 1, 6 * w)],
+                         ["fwd", "rev"], True, seed)
         if want("independent"):
             run_independent(run, seed, 2)
         if want("schedules"):
